@@ -18,7 +18,7 @@
    The protocol part of C02 (no deadlock, termination, syncutil.Go / LimitedRegion) is
    Properties/C02_protocol.v. *)
 From Oras Require Import Base.Prelude Generated.GC02 Model.CopySpec Model.CopyTop Model.CopyOpt Model.CopyFault
-  Model.CopyFaultOpt Proofs.CopySpec Proofs.CopyFault Proofs.CopyFnFacts Proofs.CopyFaultOpt Proofs.CopyFaultLive Proofs.CopyFaultTerm.
+  Model.CopyAbs Proofs.CopyAbs Model.CopyFaultOpt Proofs.CopySpec Proofs.CopyFault Proofs.CopyFnFacts Proofs.CopyFaultOpt Proofs.CopyFaultLive Proofs.CopyFaultTerm.
 Local Open Scope nat_scope.
 
 (* The tie of the hand-modelled error handling to the source (layer T -> P): the syntactic facts
@@ -283,6 +283,27 @@ Theorem C02_conservative_over_CopySpec :
     end.
 Proof. exact faccepts_conservative. Qed.
 Print Assumptions C02_conservative_over_CopySpec.
+
+(* Refinement to the abstract specification (Model/CopyAbs.v: a node is stored only when its successors are
+   held; success only when everything reachable from the roots is held; an error return any time).  The
+   abstract system keeps a link-closed destination link-closed by construction, and every step of the
+   visible-event system from a state reached by an accepted trace is a step of the abstract system under the
+   abstraction (destination content, return value): a store with its guard, a return with its guard, or a
+   stutter.  The protocol system refines the same abstract system (C02_protocol_refines_abstract). *)
+Theorem C02_abstract_keeps_closed :
+  forall (succ : nat -> list nat) (is_root : nat -> Prop) (held : list nat -> nat -> Prop),
+    (forall d x m, held d m -> held (x :: d) m) ->
+    forall s l s', astep succ is_root held s l s' -> aclosed succ held (a_dst s) -> aclosed succ held (a_dst s').
+Proof. exact astep_closed. Qed.
+Print Assumptions C02_abstract_keeps_closed.
+
+Theorem C02_spec_refines_abstract :
+  forall (g : graph) (c : cfg) (ext : bool) (d0 : list node) (tr : list fevent) (fs : fstate) (fe : fevent) (fs' : fstate),
+    ext_ok g c ext d0 -> closed_nodes g d0 -> mt_consistent g ->
+    faccepts g c ext d0 tr = Some fs -> fstep g c ext fs fe = Some fs' ->
+    exists l, astep (succ' g) (froot g c ext) (fheld g) (fabs fs) l (fabs fs').
+Proof. exact frefines. Qed.
+Print Assumptions C02_spec_refines_abstract.
 
 (* Nil callbacks.  A trace recorded with any subset [cs] of the callbacks set (a nil callback leaves no
    event) is accepted by [faccepts_opt] exactly through its ELABORATION [full]: a run of the system above
